@@ -26,6 +26,19 @@ FIRST_MISS = {
     ('C08', 'm5'): "every suffix had its own name and only variable .sstatus was checked on return; one name is now used on several kinds of items and returned constraint statuses are matched by row content",
     ('C11', 'm4'): "real values were ordinary; literals that under-/overflow a double (1e-400, 4e-320, 1e999) are now generated, and errno is reset before every run (it leaked between scenarios and made the first run of this change non-reproducible)",
     ('C19', 'm5'): "no run selected another objective than the first; obj:no=k is now varied and the delivered objective must carry the k-th name",
+    # ---- round 3 (m6, m7)
+    ('C11', 'm6'): "option files were not a source in C11: tech:optionfile=F is now generated (named from an environment variable or from argv; several assignments per line, comments, CRLF, missing file) and its lines enter the reference model where the file is named",
+    ('C11', 'm7'): "unknown names were far from every registered name; near misses are now generated (a wildcard name without its key such as wc:val, one character short / long, bare prefixes)",
+    ('C15', 'm6'): "oracle: a delivery ended only at the handler's exit hook, so an early return inside the handler left the bookkeeping stack unbalanced and hid the lost interrupt; deliveries now also end when raise() returns to the simulator.  Harness: static state left behind by a simulated _exit inside a handler made verdicts history dependent (exit 2): the worker now retires after such a run",
+    ('C05', 'm6'): "vectors had at most 8 values, so the .sol never crossed a 4096-byte block; vectors of 150..700 values with mixed widths are now generated",
+    ('C05', 'm7'): "message words contained no braces or format specials; '{', '}', '{}', '{0}', '{{x}}', '%s', '%d%n', backslashes and quotes are now generated",
+    ('C14', 'm7'): "every consumer stopped when Size() reached 0 or an error appeared; a consumer that performs exactly the announced number of reads (what the C API's handlers do) was added, and a failed read inside a vector together with an overall OK is a violation",
+    ('C08', 'm6'): "every scenario used fresh NLSolver / PreprocessData objects and a fresh stub: a history was added in which the same objects and stub served another model first (other size, classes, names, suffixes), optionally solved",
+    ('C03', 'm7'): "names were not part of the C03 hand-off at all: the feeder now feeds column / row names, they are read back with mp::NameProvider (plus the header's name lengths), and a history in which the stub was written before with names must leave no stale .col/.row",
+    ('C09', 'm7'): "the driver party was always the scripted stub backend; the repository's own sample driver (solvers/visitor, an anchor of C09) is now compiled into the simulator and is the driver in 12 % of the C09 scenarios",
+    ('C04', 'm6'): "values sent to the solver side were checked on linear images only and shared items were rare: subexpressions are now reused across constraints, and a transfer of +v / -v on one original constraint (0 elsewhere) must reach the same delivered items",
+    ('C04', 'm7'): "the solver's dual tags (20000+) were always larger than its primal tags (10000+), so the largest-non-zero rule picked the right value even when the slack variable's primal value was copied into the range constraint's dual; dual tags are now also negative, small or zero",
+    ('C10', 'm6'): "the stub driver registered its own result codes only without permission to replace; the -! block now runs six registration variants (new codes, sub-ranges, re-registration; replace on/off) and every documented range and every registered code must stay listed",
 }
 
 res = {}
@@ -76,9 +89,10 @@ out = ['# Independently seeded changes', '',
        '/repo (nothing from /verif), with the task: break the property while still compiling and passing the existing tests, and need',
        'something specific to manifest. Each was then confirmed here in a scratch worktree (`verify.log`: demo passes unchanged; patched',
        'tree builds, the 439 baseline cases still pass, demo fails) before being run against the property\'s check',
-       '(`tools/apply_seeded.sh`: `git -C /repo apply`, `./run <id> --tier quick`, `git -C /repo checkout -- .`). None is committed in /repo.',
+       '(`tools/apply_seeded.sh`: `git -C /repo apply`, `./run <id> --tier quick`, `git -C /repo checkout -- .`; or, leaving /repo alone,',
+       '`tools/check_seeded_scratch.sh`: the same check built from a scratch worktree holding the change). None is committed in /repo.',
        '', '`first run` is the outcome of the check as it stood when the change arrived; where it missed, the check was strengthened',
-       '(generator or oracle — never by special-casing the change) and `final` is the outcome now. `tools/seeded_all.sh` re-runs all of them.', '',
+       '(generator or oracle — never by special-casing the change) and `final` is the outcome now. `tools/seeded_all_scratch.py` re-runs all of them (RESULTS.txt).', '',
        '| property | change | files | what it does | needs to manifest | scratch confirmation | first run | final exit | violation reported |',
        '|---|---|---|---|---|---|---|---|---|']
 for r in rows:
